@@ -663,7 +663,7 @@ func runWarningRules(c *Ctx) {
 						}
 					case *ssa.Store:
 						if tainted[x.Val] {
-							if fa, ok := x.Addr.(*ssa.FieldAddr); ok && typeName(fa.X.Type()) == "csv.row" && fieldName(fa.X.Type(), fa.Field) == "cells" {
+							if fa, ok := x.Addr.(*ssa.FieldAddr); ok && typeName(fa.X.Type()) == c.csvRoleNames().rowType && fieldName(fa.X.Type(), fa.Field) == c.csvRoleNames().cells {
 								if !cellsTainted {
 									cellsTainted = true
 									changed = true
@@ -671,7 +671,7 @@ func runWarningRules(c *Ctx) {
 							}
 						}
 					case *ssa.UnOp:
-						if fa, ok := x.X.(*ssa.FieldAddr); ok && x.Op == token.MUL && cellsTainted && typeName(fa.X.Type()) == "csv.row" && fieldName(fa.X.Type(), fa.Field) == "cells" {
+						if fa, ok := x.X.(*ssa.FieldAddr); ok && x.Op == token.MUL && cellsTainted && typeName(fa.X.Type()) == c.csvRoleNames().rowType && fieldName(fa.X.Type(), fa.Field) == c.csvRoleNames().cells {
 							mark(x)
 						}
 					case *ssa.Phi:
@@ -713,7 +713,7 @@ func runWarningRules(c *Ctx) {
 						}
 					case *ssa.Store:
 						if tainted[x.Val] {
-							if fa, ok := x.Addr.(*ssa.FieldAddr); ok && typeName(fa.X.Type()) == "csv.row" && fieldName(fa.X.Type(), fa.Field) == "cells" {
+							if fa, ok := x.Addr.(*ssa.FieldAddr); ok && typeName(fa.X.Type()) == c.csvRoleNames().rowType && fieldName(fa.X.Type(), fa.Field) == c.csvRoleNames().cells {
 								continue
 							}
 							if _, isAlloc := x.Addr.(*ssa.Alloc); isAlloc {
